@@ -852,6 +852,8 @@ func copyIndexChunks(ctx context.Context, db kvStore, indexStore storage.Store, 
 	for {
 		ks, next, err = iterator(next)
 		if err != nil {
+			_ = copyGroup.Wait() // loaders already started still write to the KV store, which the caller closes on error
+
 			return nil, numKeys, lastIndex, fmt.Errorf("iterating index chunks in metadata [%s]: %w", next, err)
 		}
 
@@ -865,8 +867,9 @@ func copyIndexChunks(ctx context.Context, db kvStore, indexStore storage.Store, 
 
 			index, erp := model.ReverseIndexChunk(chunk)
 			if erp != nil {
-				return nil, numKeys, lastIndex, fmt.Errorf("invalid index chunk file [%s]: %w", chunk, erp)
+				_ = copyGroup.Wait()
 
+				return nil, numKeys, lastIndex, fmt.Errorf("invalid index chunk file [%s]: %w", chunk, erp)
 			}
 			if index > lastIndex {
 				lastIndex = index
